@@ -6,6 +6,8 @@ import scipy.optimize
 
 from vmon import conds, gen, instr
 
+from vmon.scale import S
+
 ID = 'C15'
 RULE = ('cases = (a) score matrices K <= 6 (random float / integer, all matrices over {0,1,2} for K <= 3): the optimal algorithm attains the '
         'linear-sum-assignment optimum (and the brute-force maximum) and is never below greedy; (b) references with pairwise distinct '
@@ -30,7 +32,7 @@ def plan(tier, seed):
                 for alg in ('greedy', 'optimal'):
                     cases.append(dict(lane='exh-field', K=K, F=F, metric=metric, alg=alg, rs=[seed, 16, K, F]))
     i = 100
-    n = 200 if tier == 'quick' else 2000
+    n = S(tier, 200, 2000)
     for r in range(n):
         cases.append(dict(lane='matrix', K=int(rng.integers(1, 7)), lead=pick([[], [4]]), dtype=pick(['float', 'int', 'ties']), rs=[seed, 17, i])); i += 1
     for r in range(n):
